@@ -57,8 +57,13 @@ class Universe:
         llinks = ksi.rand_links(rng, rng.choice([1, 2, 3]), kinds=("imprint", "meta"))
         lroot, llevel = ksi.aggregate(llinks, leaf, 0, 1)
         forms["local"] = ksi.build_sig(rng, lroot, level=llevel, nchains=2, time=cs.T, anchor="auth", kinds=("imprint", "legacy"))
-        self.local_chain = ksi.aggr_chain_tlv(cs.T, [ksi.shape_index(llinks)], leaf, 1, llinks)
-        self.local_leaf = leaf
+        self.local = {"local": (ksi.aggr_chain_tlv(cs.T, [ksi.shape_index(llinks)], leaf, 1, llinks), leaf, 0)}
+        # ... and one whose leaves carry input level 3: the chain is prepended with that start level
+        leaf3 = ksi.imprint(1, b"c11-local-leaf3-%d" % rng.randrange(1 << 30))
+        l3 = ksi.rand_links(rng, rng.choice([1, 2, 3]), kinds=("imprint", "meta"))
+        root3, level3 = ksi.aggregate(l3, leaf3, 3, 1)
+        forms["locallvl"] = ksi.build_sig(rng, root3, level=level3, nchains=2, time=cs.T, anchor="auth", kinds=("imprint", "legacy"))
+        self.local["locallvl"] = (ksi.aggr_chain_tlv(cs.T, [ksi.shape_index(l3)], leaf3, 1, l3), leaf3, 3)
         self.bytes = {k: v.tlv() for k, v in forms.items()}
         self.bytes["nonmin"] = nonminimal(self.bytes["pub"])
         cs.e = dict(c04_good(), up="given", upTime="atSigPub", pfc=dict(atSig="match", later="true"))
@@ -154,12 +159,16 @@ def run(chk, tier, seed):
                         chk.violation("derive-failed:%s:%s" % (o, op["post"][str(a)]["base"]), "%s failed on an honest extender: %s" % (what, r), dict(trace=tr[:si + 1], log=[x[:300] for x in S.log[-10:]])); break
                     created[a] = ("derived", None)
                 elif o == "prepend":
-                    out = S.cmd("OPREPEND %d %d %s" % (a, b_, U.local_chain.hex()))
+                    lchain, lleaf, lstart = U.local[op["post"][str(a)]["base"]]
+                    out = S.cmd("OPREPEND %d %d %s %d" % (a, b_, lchain.hex(), lstart))
                     if "rc=0x0" not in out[-1]:
                         chk.violation("derive-failed:prepend", "%s failed: %s" % (what, out[-1]), dict(trace=tr[:si + 1])); break
                     created[a] = ("derived", None)
                     v = U.verify(S, "@%d" % a, "INTERNAL", "-", "-")
-                    v2 = netsim.kv(S.cmd("VERIFY INTERNAL @%d - - 0 %s 0" % (a, U.local_leaf.hex()))[-1])
+                    v2 = netsim.kv(S.cmd("VERIFY INTERNAL @%d - - 0 %s %d" % (a, lleaf.hex(), lstart))[-1])
+                    v3 = netsim.kv(S.cmd("VERIFY INTERNAL @%d - - 0 %s %d" % (a, lleaf.hex(), lstart + 1))[-1])
+                    if v3.get("res") == "0":
+                        chk.violation("prepend:level-not-bound", "the signature with the prepended local chain verifies for an input level above the leaves' level %d: %s" % (lstart, v3), dict(trace=tr[:si + 1]))
                     if v[1] != "0" or v2.get("res") != "0":
                         chk.violation("prepend:result-does-not-verify", "the signature with the prepended local chain does not verify for the local leaf: %s / %s" % (v, v2), dict(trace=tr[:si + 1]))
                 elif o == "addlevel":
@@ -227,7 +236,7 @@ def run(chk, tier, seed):
     chk.add(evaluations=n + nver, distinct_nontrivial=n, traces=len(traces), steps=n, verifications=nver, exhaustive=False,
             rule="%d TLC-simulated operation sequences of length %d over 4 slots x 6 signature forms x {parse, clone, extend to head / later time / another object's publication record, add root level, "
                  "free, verify, hashing, log level}; after every step every live object: serialization == creation bytes, verdict (rotating over 6 policies x document none/right/wrong x levels) == fresh-context verdict" % (len(traces), depth))
-    chk.assumptions += ["prepending a local aggregation chain is not exercised (no public parser for a lone aggregation chain); RFC3161 forms are not generated",
+    chk.assumptions += ["RFC3161 forms are not generated",
                         "canonical TLV input only: the reference builder emits minimal encodings"]
 
 
